@@ -183,7 +183,7 @@ func VerifC11Routing() {
 	rec2 := &verifRecorder{}
 	serve(rec2, req)
 	verifAssert("sticky-request-served", down.calls == 2)
-	verifAssert("sticky-request-goes-to-its-server", sameURL(down.seen, us[target]))
+	verifAssert("sticky-request-goes-to-its-server", vfSameURL(down.seen, us[target]))
 	// nothing the downstream handler did to the URL it was handed changed the pool (C02)
 	for _, s := range pool.Servers() {
 		verifAssert("pool-urls-unchanged-on-sticky-path", verifAnd(s.Host != "evil", s.Scheme != "ftp"))
@@ -195,7 +195,7 @@ func VerifC11Routing() {
 	rec3 := &verifRecorder{}
 	serve(rec3, req3)
 	verifAssert("stale-cookie-still-served", verifAnd(down.calls == 3, len(rec3.Codes) == 1))
-	verifAssert("stale-cookie-goes-to-a-member", verifAnd(!sameURL(down.seen, us[target]), vfIdentOfSticky(us, down.seen) >= 0))
+	verifAssert("stale-cookie-goes-to-a-member", verifAnd(!vfSameURL(down.seen, us[target]), vfIdentOfSticky(us, down.seen) >= 0))
 	verifAssert("stale-cookie-gets-fresh-cookie", rec3.Header().Get("Set-Cookie") != "")
 	// 4. a cookie nobody issued (garbage, undecodable, a non-member's) is not an error: the
 	// request is balanced normally and answered with a fresh cookie, through either balancer
@@ -205,7 +205,7 @@ func VerifC11Routing() {
 	rec4 := &verifRecorder{}
 	serve(rec4, req4)
 	verifAssert("unknown-cookie-still-served", verifAnd(down.calls == 4, verifAnd(len(rec4.Codes) == 1, rec4.code(0) == http.StatusOK)))
-	verifAssert("unknown-cookie-goes-to-a-member", verifAnd(!sameURL(down.seen, us[target]), vfIdentOfSticky(us, down.seen) >= 0))
+	verifAssert("unknown-cookie-goes-to-a-member", verifAnd(!vfSameURL(down.seen, us[target]), vfIdentOfSticky(us, down.seen) >= 0))
 	verifAssert("unknown-cookie-gets-fresh-cookie", rec4.Header().Get("Set-Cookie") != "")
 	_ = first
 	verifReach("end")
@@ -213,7 +213,7 @@ func VerifC11Routing() {
 
 func vfIdentOfSticky(us []*url.URL, u *url.URL) int {
 	for i := range us {
-		if sameURL(us[i], u) {
+		if vfSameURL(us[i], u) {
 			return i
 		}
 	}
